@@ -4,13 +4,18 @@
 Proof side: coq/Sync/SyncModel.v (shared model), coq/Sync/CondBase.v, CondInv.v (inductive invariants),
 CondTrace.v (runs as traces), CondProofs.v, coq/Properties_C05.v.
 Tie: generated programs that are deadlock-free by construction and whose outcome is determinate iff no
-wake-up is lost (bounded buffer, turnstile, gate opened by a broadcast, ping-pong, each optionally with
-spurious signallers that do not hold the mutex) run on the real library under the schedule controller
+wake-up is lost (bounded buffer, turnstile, gate opened by a broadcast, ping-pong, hand-off, each optionally
+with spurious signallers that do not hold the mutex; gates whose ONE broadcast sees 8 / 33 / 130 / 300 waiters;
+signal storms of k signals against m queued waiters followed by late waiters) run on the real library under
+the schedule controller
 (harness/lib_interp.c); every trace is
  (1) replayed through the extracted model (tools/props/sync_common.py), and
  (2) judged by an independent oracle of the property itself (oracle() below): verdict, occupancy at every
      cond_wait return, final counters, enqueue-before-release inside every cond-wait callback, signal /
-     broadcast semantics on the queue snapshots."""
+     broadcast semantics on the queue snapshots, and the causality rule: every cond_wait return is caused by
+     exactly one push naming that thread after that wait's enqueue; every push names the thread its signaller
+     has just dequeued; the queue contents are exactly what the enqueue / dequeue steps imply (no banked
+     signal, nobody vanishes from the queue)."""
 import os, re, json, shutil
 import vlib, trace
 from props import sync_common
@@ -20,7 +25,10 @@ from props import sync_common
 CB_POINTS = ["blockq.enq@cond", "mutex.unlock.read@cb", "mutex.unlock.cas1@cb", "mutex.unlock.cas2@cb",
              "wake1.deq@cb", "mutex.clearbit@cb", "wake1.push@cb"]
 MAIN_POINTS = ["wakeany.deq", "wakeany.push", "wakeany.deq@empty", "wakeany.deq@nonempty"]
-SITUATIONS = ["woken_while_callback_unlocking", "two_callbacks_in_flight", "bcast_multi", "rewait"]
+SITUATIONS = ["woken_while_callback_unlocking", "two_callbacks_in_flight", "bcast_multi", "rewait",
+              "cwait_resumed_on_other_worker", "cwait_returns_multiworker", "signal_multi_wake",
+              "storm_runs", "storm_exact", "banked_phase_waits"]
+MAXSTATS = ["max_bcast_waiters"]          # aggregated by max, not by sum
 
 
 # --------------------------------------------------------------------------------------------------
@@ -124,29 +132,85 @@ def gen_handoff(rng, N):
     return objs, threads, {"tok": 0, "got": k}, ["c"]
 
 
-FAMILIES = {"buffer": gen_buffer, "turnstile": gen_turnstile, "gate": gen_gate, "pingpong": gen_pingpong,
+def gen_biggate(rng, N, K=None):
+    """K waiters announce themselves (ready++, signal r) under the mutex and wait for `open`; the opener first
+    waits until all K have announced - they are then all IN the condition queue (enqueue precedes release) -
+    and only then opens the gate with ONE broadcast that sees K waiters at once"""
+    K = K or rng.choice([8, 33])
+    objs = ["m mutex", "g cond", "r cond", "open var 0", "cnt var 0", "ready var 0"]
+    threads = {}
+    for t in range(1, K + 1):
+        threads[t] = ["lock m", "add ready 1", "signal r", "await g m open eq 1", "add cnt 1", "unlock m"]
+    tail = ["set open 1", "bcast g", "unlock m"] if rng.chance(1, 2) else ["set open 1", "unlock m", "bcast g"]
+    threads[K + 1] = ["lock m", "await r m ready ge %d" % K] + tail
+    return objs, threads, {"cnt": K, "open": 1, "ready": K}, ["g"]
+
+
+def gen_storm(rng, N, k=None, m=None):
+    """signal storm: m waiters (raw cond_wait, no predicate loop) are all in the queue of c before the first of
+    k signals is issued; exactly min(k, m) of them are released by the signals (at least one per signal that
+    finds a waiter - the property's wording - and never more pushes than dequeued heads), the k - m signals
+    that find the queue empty have no effect: the late waiters that arrive afterwards (predicate `fin`) are
+    released by nothing but the final broadcast, which also releases the m - k left over"""
+    m = m or rng.rng(1, 6)
+    k = k if k is not None else rng.choice([max(0, m - rng.rng(1, 3)), m, m + rng.rng(1, 3)])
+    late = rng.rng(1, 2)
+    objs = ["m mutex", "c cond", "r cond", "ready var 0", "out var 0", "fin var 0", "lateout var 0"]
+    threads = {}
+    for t in range(1, m + 1):
+        threads[t] = ["lock m", "add ready 1", "signal r", "cwait c m", "add out 1", "unlock m"]
+    sig = m + 1
+    ops = ["lock m", "await r m ready ge %d" % m]
+    inside = rng.chance(1, 2)
+    if not inside:
+        ops.append("unlock m")
+    ops += ["signal c"] * k
+    if inside:
+        ops.append("unlock m")
+    # phase 2: the LATE waiters are created only now, after every signal of the storm has returned: a signal
+    # that found the queue empty must not let one of them through (no banked signal); then release everybody
+    late_tags = [sig + 1 + j for j in range(late)]
+    ops += ["create %d" % t for t in late_tags]
+    ops += ["yield"] * rng.rng(0, 3)
+    ops += ["lock m", "set fin 1", "bcast c", "unlock m"]
+    threads[sig] = ops
+    for t in late_tags:
+        threads[t] = ["lock m", "await c m fin eq 1", "add lateout 1", "unlock m"]
+    return objs, threads, {"out": m, "fin": 1, "lateout": late, "ready": m}, ["c"], {"late": late_tags}
+
+
+FAMILIES = {"biggate": gen_biggate, "storm": gen_storm, "buffer": gen_buffer, "turnstile": gen_turnstile, "gate": gen_gate, "pingpong": gen_pingpong,
             "handoff": gen_handoff}
 
 
-def gen_case(rng, kind=None, workers=None, pswitch=None, spurious=None):
-    kind = kind or rng.choice(["buffer", "buffer", "turnstile", "gate", "gate", "pingpong", "handoff"])
+def gen_case(rng, kind=None, workers=None, pswitch=None, spurious=None, **kw):
+    kind = kind or rng.choice(["buffer", "buffer", "turnstile", "gate", "gate", "pingpong", "handoff",
+                               "storm", "storm", "biggate"])
     workers = workers or rng.rng(1, 4)
     pswitch = pswitch or rng.choice([20, 35, 60, 85])
     seed = rng.rng(1, 1 << 30)
     N = rng.rng(3, 6)
-    objs, threads, expect, conds = FAMILIES[kind](rng, N)
+    fam = FAMILIES[kind](rng, N, **kw)
+    objs, threads, expect, conds = fam[:4]
+    storm, late = None, []
+    if kind == "storm":
+        nm = expect["out"]
+        late = fam[4]["late"]
+        storm = {"cond": "c", "m": nm, "k": sum(1 for o in threads[nm + 1] if o == "signal c"), "late": late}
+        spurious = False                  # raw cond_wait: every wake-up is counted
     spurious = rng.chance(2, 5) if spurious is None else spurious
     if spurious:
         _spurious(rng, threads, conds, N, max(threads) + 1)
     tags = sorted(threads)
     order = list(tags)
     rng.shuffle(order)
-    main = ["create %d" % t for t in order] + ["join %d" % t for t in tags] + ["get %s" % v for v in sorted(expect)]
+    main = ["create %d" % t for t in order if t not in late] + ["join %d" % t for t in tags] + \
+           ["get %s" % v for v in sorted(expect)]
     threads = dict(threads)
     threads[0] = main
     text = trace.case_text(workers, seed, objs, threads, pswitch=pswitch)
     return {"text": text, "kind": kind, "N": len(threads), "workers": workers, "pswitch": pswitch,
-            "expect": expect, "spurious": bool(spurious)}
+            "expect": expect, "spurious": bool(spurious), "storm": storm}
 
 
 # --------------------------------------------------------------------------------------------------
@@ -170,8 +234,9 @@ def _tag(v):
 
 def analyse(case, r):
     """one pass over the trace: returns (message or None, statistics)"""
-    st = {k: 0 for k in CB_POINTS + MAIN_POINTS + SITUATIONS}
+    st = {k: 0 for k in CB_POINTS + MAIN_POINTS + SITUATIONS + MAXSTATS}
     st["cwait_returns"] = 0
+    nworkers = int(re.search(r"^workers (\d+)", case["text"], re.M).group(1))
     if r["verdict"] is None or r["rc"] != 0 or not r["verdict"].startswith("DONE"):
         v = r["verdict"] or "no verdict"
         what = "missed signal (lost wake-up): " if v.startswith("DEADLOCK") else ""
@@ -186,6 +251,10 @@ def analyse(case, r):
     bcasts = []          # finished broadcast calls for the membership check
     deq_log = []         # (event index, cond, head or None, thread)
     push_log = []        # (event index, cond, pushed thread, by)
+    cq = {}              # cond -> its FIFO as implied by the enqueue / dequeue steps seen so far
+    hand = {}            # signaller -> (cond, thread) it has dequeued and not yet pushed
+    waitrec = {}         # thread -> its latest cond_wait record {cond, enq, pushed}
+    sig_pushes = {}      # cond -> pushes made inside `signal` calls
     for idx, e in enumerate(r["events"]):
         T = e.actor
         if e.kind == "E" and e.words and e.words[0] == "cb.enter":
@@ -203,7 +272,7 @@ def analyse(case, r):
                     return ("callback of t%d enqueued on %s and cleared the lock bit %d times" %
                             (T, inst["enq"][1], len(inst["clears"])), st)
         elif e.kind == "C":
-            calls.setdefault(T, []).append({"op": e.words, "ev": [], "idx": idx})
+            calls.setdefault(T, []).append({"op": e.words, "ev": [], "idx": idx, "w": e.w, "enq": None, "pushed": None})
         elif e.kind == "P":
             pid, obj, val = e.words[0], e.words[1], e.words[2]
             s = _STATE.search(e.snap or "")
@@ -220,6 +289,15 @@ def analyse(case, r):
                             return ("cond_wait of t%d released the mutex BEFORE enqueuing on %s (%s)" % (T, obj, e.raw[:70]), st)
                         if q is not None and T in q:
                             return ("t%d is already in the queue of %s when its callback enqueues it" % (T, obj), st)
+                        if q is not None and q != cq.get(obj, []):
+                            return ("queue of %s is %s before t%d's enqueue, but the enqueues / dequeues seen so far give %s"
+                                    % (obj, q, T, cq.get(obj, [])), st)
+                        cq.setdefault(obj, []).append(T)
+                        top = calls[T][-1] if calls.get(T) else None
+                        if top is None or top["op"][0] != "cwait" or top["op"][1] != obj or top["enq"] is not None:
+                            return ("t%d is enqueued on %s outside a cond_wait on it (%s)" % (T, obj, e.raw[:70]), st)
+                        top["enq"] = idx
+                        waitrec[T] = top
                     inst["enq"] = (idx, obj)
                 elif kind.get(obj) == "mutex":
                     key = pid + "@cb"
@@ -237,12 +315,33 @@ def analyse(case, r):
                     st["wakeany.deq"] += 1
                     st["wakeany.deq@empty" if not q else "wakeany.deq@nonempty"] += 1
                     deq_log.append((idx, obj, q[0] if q else None, T))
+                    if kind.get(obj) == "cond":
+                        if q is not None and q != cq.get(obj, []):
+                            return ("queue of %s is %s at a dequeue of t%s, but the enqueues / dequeues seen so far give %s "
+                                    "(a waiter vanished or appeared without an enqueue / dequeue step)" % (obj, q, T, cq.get(obj, [])), st)
+                        if hand.get(T) is not None:
+                            return ("t%s dequeues from %s while still holding t%d (dequeued, never pushed)" % (T, obj, hand[T][1]), st)
+                        if cq.get(obj):
+                            hand[T] = (obj, cq[obj].pop(0))
                 elif pid == "wakeany.push":
                     st["wakeany.push"] += 1
                     x = _tag(val)
                     push_log.append((idx, obj, x, T))
                     if x is not None and open_cond_cb.get(x, 0) > 0:
                         st["woken_while_callback_unlocking"] += 1
+                    if kind.get(obj) == "cond":
+                        # rule 1: a push names exactly the thread its signaller has just dequeued, a thread that
+                        # is enqueued by a cond_wait on this condition and has not been pushed since
+                        if hand.get(T) != (obj, x):
+                            return ("wakeany.push on %s names %s, which t%s did not dequeue (in its hand: %s)"
+                                    % (obj, val, T, hand.get(T)), st)
+                        hand[T] = None
+                        w = waitrec.get(x)
+                        if w is None or w["op"][1] != obj or w["enq"] is None or w["pushed"] is not None:
+                            return ("wakeany.push on %s names t%s, which is not enqueued by a cond_wait on it" % (obj, x), st)
+                        w["pushed"] = idx
+                        if calls.get(T) and calls[T][-1]["op"][0] == "signal":
+                            sig_pushes[obj] = sig_pushes.get(obj, 0) + 1
         elif e.kind == "R":
             stack = calls.get(T) or []
             if not stack:
@@ -257,6 +356,18 @@ def analyse(case, r):
                     return ("cond_wait of t%d returned %s" % (T, ret), st)
                 if occ != ["occ=1"]:
                     return ("cond_wait of t%d returned without holding the mutex exclusively (%s)" % (T, " ".join(e.words[2:])), st)
+                # rule 1: the return is caused by exactly one push naming this thread, after this wait's enqueue
+                if c["enq"] is None:
+                    return ("cond_wait of t%d on %s returned without ever enqueuing (banked signal / spurious return)" % (T, op[1]), st)
+                if c["pushed"] is None or not (c["enq"] < c["pushed"] < idx):
+                    return ("cond_wait of t%d on %s returned without a push naming it after its enqueue "
+                            "(banked signal / spurious return)" % (T, op[1]), st)
+                if nworkers >= 2:
+                    st["cwait_returns_multiworker"] += 1
+                    if e.w != c["w"]:
+                        st["cwait_resumed_on_other_worker"] += 1
+                if case.get("storm") and T in case["storm"]["late"] and case["storm"]["k"] > case["storm"]["m"]:
+                    st["banked_phase_waits"] += 1
             elif op[0] == "await":
                 w = [kv for kv in e.words[2:] if kv.startswith("waits=")]
                 if w and int(w[0][6:]) >= 2:
@@ -269,6 +380,7 @@ def analyse(case, r):
                     firsts = [x for x in c["ev"] if x[1] == "wakeany.deq"]
                     if firsts:
                         bcasts.append((firsts[0][0], idx, op[1], firsts[0][4] or [], T))
+                        st["max_bcast_waiters"] = max(st["max_bcast_waiters"], len(firsts[0][4] or []))
             elif op[0] == "get" and T == 0:
                 gets[op[1]] = ret
     # (e) broadcast: every member of the queue at its first dequeue was dequeued (by anybody) before the call
@@ -284,6 +396,18 @@ def analyse(case, r):
                 return ("broadcast of t%d on %s dequeued t%d but did not push it before returning" % (T, cond, x), st)
             if not ps:
                 return ("t%d was dequeued from %s by t%d and never pushed" % (x, cond, d[3]), st)
+    for T, h in hand.items():
+        if h is not None:
+            return ("t%d was dequeued from %s by t%s and never pushed" % (h[1], h[0], T), st)
+    if case.get("storm"):
+        sm = case["storm"]
+        got = sig_pushes.get(sm["cond"], 0)
+        st["storm_runs"] += 1
+        if got < min(sm["k"], sm["m"]):
+            return ("signal storm: %d signals on %s with %d waiters blocked released only %d of them" %
+                    (sm["k"], sm["cond"], sm["m"], got), st)
+        if got == min(sm["k"], sm["m"]):
+            st["storm_exact"] += 1
     for var, exp in case["expect"].items():
         if gets.get(var) != exp:
             return ("final %s = %s, expected %d (a wake-up was lost or a critical section was not exclusive)" % (var, gets.get(var), exp), st)
@@ -309,8 +433,11 @@ def check_signal(T, op, ev, st):
                 return "%s of t%d on %s: head of the queue is t%d but %s was pushed" % (op[0], T, cond, q[0], seq[i + 1][3])
             i += 2
             if op[0] == "signal":
+                # the property says "at least one": further dequeue / push pairs of blocked threads are not a
+                # failing input (the model, C05_signal_deq, says exactly one: that shows as a correspondence break)
                 if i != len(seq):
-                    return "signal of t%d on %s touched the queue again after waking one thread" % (T, cond)
+                    st["signal_multi_wake"] += 1
+                    continue
                 return None
         else:
             if i + 1 != len(seq):
@@ -318,6 +445,8 @@ def check_signal(T, op, ev, st):
             if op[0] == "bcast" and ndeq >= 3:
                 st["bcast_multi"] += 1
             return None
+    if op[0] == "signal":
+        return None
     if op[0] == "bcast":
         return "broadcast of t%d on %s returned without having seen the queue empty" % (T, cond)
     return None
@@ -377,7 +506,7 @@ def judge(ctx, cases, exe, drv):
     for c, r in zip(cases, results):
         msg, st = analyse(c, r)
         for k, v in st.items():
-            stats[k] = stats.get(k, 0) + v
+            stats[k] = max(stats.get(k, 0), v) if k in MAXSTATS else stats.get(k, 0) + v
         if msg:
             fails.append((c, r, msg))
         bad = [m for m in r["model"] if not m.startswith("ok")]
@@ -405,10 +534,26 @@ def run(ctx):
     cases += [gen_case(ctx.rng, workers=ctx.rng.rng(2, 4), pswitch=ctx.rng.choice([60, 85]), spurious=True)
               for _ in range(n // 4)]
     cases += [gen_case(ctx.rng, kind="gate", workers=ctx.rng.rng(2, 4), pswitch=85) for _ in range(n // 8)]
+    # large broadcasts are a regular family: one broadcast that sees 8 / 33 / 130 (thorough: 300) waiters at once
+    # (beyond any plausible internal batch size: 128, 256), on 1..4 workers
+    big = [8, 33, 130, 130, 130] if not ctx.thorough else [8, 33, 64, 129, 130, 130, 257, 300, 300] * 3
+    for i, K in enumerate(big):
+        cases.append(gen_case(ctx.rng, kind="biggate", workers=1 + (i + ctx.rng.below(4)) % 4,
+                              pswitch=ctx.rng.choice([20, 35, 60]), spurious=False, K=K))
+    # signal storms: k signals against m waiters already in the queue, m < k, m = k, m > k
+    for _ in range(n // 10):
+        m = ctx.rng.rng(2, 14)
+        d = ctx.rng.rng(1, 4)
+        for k in (max(0, m - d), m, m + d):
+            cases.append(gen_case(ctx.rng, kind="storm", workers=ctx.rng.rng(1, 4), k=k, m=m))
     results, fails, mism, stats = judge(ctx, cases, exe, drv)
     need = CB_POINTS + ["wakeany.deq@empty", "wakeany.deq@nonempty", "wakeany.push",
-                        "woken_while_callback_unlocking", "two_callbacks_in_flight", "cwait_returns"]
+                        "woken_while_callback_unlocking", "two_callbacks_in_flight", "cwait_returns",
+                        "cwait_resumed_on_other_worker", "storm_runs", "banked_phase_waits"]
     missing = [p for p in need if not stats.get(p)]
+    want_big = 300 if ctx.thorough else 130
+    if stats.get("max_bcast_waiters", 0) < want_big:
+        missing.append("max_bcast_waiters>=%d (seen %d)" % (want_big, stats.get("max_bcast_waiters", 0)))
     dist = {}
     for c in cases:
         for k in ("kind:" + c["kind"], "workers:%d" % c["workers"], "pswitch:%d" % c["pswitch"],
@@ -449,7 +594,7 @@ def run(ctx):
                     break
         cats = {}
         for _, _, m in fails:
-            k = m.split("(")[0][:60]
+            k = re.sub(r" on \w+", "", re.sub(r"\bt\d+", "tN", m.split("(")[0]))[:70]
             cats[k] = cats.get(k, 0) + 1
         c, r, msg = (dead or fails)[0]
         ctx.violation("oracle", msg, {"case": c, "observed": {"verdict": r["verdict"], "model": r["model"], "trace": r["trace_path"]},
